@@ -282,10 +282,11 @@ CHECKS["C03"] = {
     "level_note": "Trusts synctest's clock, the in-memory network and the fake targets' logs.",
 }
 CHECKS["C17"]["layers"].append(L("TestVF_C17_Drain", 1200, 15000))
-CHECKS["C17"]["layers"].append(L("TestVF_C17_Overlap", 400, 5000))
-CHECKS["C10"]["layers"].append(L("TestVF_C10_Overlap", 400, 5000))
-OVERLAP_RULE = (" Overlap layer (TestVF_%s_Overlap): 2-3 commands on ONE service (deploy, rollout deploy, rollout set, rollout stop), one "
-                "deploy-type command held at deploy.before-install or deploy.installed while the later ones run to completion, then "
+CHECKS["C17"]["layers"].append(L("TestVF_C17_Overlap", 1, 1, shards=1, rapid=False))
+CHECKS["C10"]["layers"].append(L("TestVF_C10_Overlap", 1, 1, shards=1, rapid=False))
+OVERLAP_RULE = (" Overlap layer (TestVF_%s_Overlap, exhaustive enumeration): every sequence of 2 or 3 commands on ONE service out of {deploy, rollout "
+                "deploy, rollout set, rollout stop}, with and without a rollout in place, with every deploy-type command but the last as the one "
+                "held at deploy.before-install or deploy.installed while the later ones run to completion (or none held), then "
                 "released; oracle needs no model of who wins: once every command has returned and the proxy is quiet, %s. "
                 "Non-trivial there = a command was really held while another ran.")
 CHECKS["C17"]["rule"] += OVERLAP_RULE % ("C17", "exactly the targets the saved state names receive health probes (none without an owner, none owned but unprobed)")
